@@ -9,7 +9,7 @@ import (
 	"verif/mc/ref"
 )
 
-var c07Opts = []string{"none", "SET", "MULTISET", "SETKEYS:id", "SETKEYS:id,t", "MERGE"}
+var c07Opts = []string{"none", "SET", "MULTISET", "SETKEYS:id", "SETKEYS:id,t", "MERGE", "SET+MERGE", "MULTISET+MERGE"}
 
 func c07Legs(tier, o string) []pairLeg {
 	legs := pairSpace(tier, o)
